@@ -3,6 +3,7 @@ package main
 import (
 	"bytes"
 	"encoding/binary"
+	"encoding/json"
 	"fmt"
 	"image"
 	"image/color"
@@ -72,7 +73,7 @@ func decodeToARGB(file []byte, limit time.Duration) (pix []int, w, h int, err er
 func checkC03(args []string) {
 	run := vx.NewRun("C03", "model_checking", args)
 	activeRun = run
-	run.Rule = "valid VP8L streams that the package's encoder never emits are produced by a seeded structure generator (any subset and order of the four transforms, tile bits 2..9, palettes 1..256 with every packing, cache bits 0..11, meta prefix images with several groups, simple / single-symbol / flat / skewed / 15-bit-deep prefix codes described with and without repeat codes and max_symbol, literals, cache references, backward references over all 120 plane codes and plain distances, overlapping copies); each stream is decoded by the independent TLA+ reader (spec/Vp8l.tla), which defines the pixels, and by webp.Decode; the two must agree. Streams the TLA+ reader rejects are generator mistakes and are skipped. libwebp-encoded lossless fixtures are decoded by the real decoder against their reference PNGs. distinct = distinct generated streams accepted by the specification"
+	run.Rule = "(1) a TLA+ WRITER (spec/Vp8lGen.tla) explored by TLC's BFS enumerates every ordered list of distinct transforms (predictor, cross-colour, subtract-green, palettes with 8x/4x/2x/no packing), writes the stream, decodes it with the reader spec and hands (bytes, expected pixels) to the real decoder; (2) valid VP8L streams that the package's encoder never emits are produced by a seeded structure generator (any subset and order of the four transforms, tile bits 2..9, palettes 1..256 with every packing, cache bits 0..11, meta prefix images with several groups, simple / single-symbol / flat / skewed / 15-bit-deep prefix codes described with and without repeat codes and max_symbol, literals, cache references, backward references over all 120 plane codes and plain distances, overlapping copies); each stream is decoded by the independent TLA+ reader (spec/Vp8l.tla), which defines the pixels, and by webp.Decode; the two must agree. Streams the TLA+ reader rejects are generator mistakes and are skipped. libwebp-encoded lossless fixtures are decoded by the real decoder against their reference PNGs. distinct = distinct generated streams accepted by the specification"
 	run.Assumptions = []string{"the TLA+ reader is the reference for what a stream decodes to (it was validated on real encoder output by C01 and on libwebp files)", "pictures up to 20x14, plus a class of up to 64x40 pictures with long copies and 15-bit codes (TLC speed)"}
 	rng := rand.New(rand.NewSource(run.Seed))
 	n := run.Pick(700, 8000)
@@ -137,6 +138,49 @@ func checkC03(args []string) {
 	}
 	run.Cov["generated"] = len(lines)
 	run.Cov["rejected_by_the_specification_and_skipped"] = skipped
+	// spec -> code: the TLA+ WRITER (spec/Vp8lGen.tla) enumerates every ordered list of distinct transforms by BFS,
+	// writes the stream and decodes it with the reader spec; the real decoder must return the spec's pixels
+	wr := vx.MustTLC(vx.TLCOpts{Module: "Vp8lGen", Cfg: fmt.Sprintf("SPECIFICATION Spec\nCONSTANTS W = 7\nH = 5\nSEED = %d\nMAXT = %d\nINVARIANTS ReaderAccepts Emit\nCHECK_DEADLOCK FALSE\n", 1+run.Seed%97, run.Pick(2, 4)),
+		Workers: 1, Timeout: 30 * time.Minute, Heap: "4g"})
+	if wr.InvViolated != "" {
+		vx.Fatal2("Vp8lGen: the reader spec rejects what the writer spec wrote (%s): specification bug", wr.InvViolated)
+	}
+	run.AddTLC(wr)
+	nWr := 0
+	for _, raw := range wr.Tagged("CASE") {
+		var c struct {
+			Ts    [][]int `json:"ts"`
+			W     int     `json:"w"`
+			H     int     `json:"h"`
+			Bytes []int   `json:"bytes"`
+			Pix   []int   `json:"pix"`
+		}
+		if err := json.Unmarshal(raw, &c); err != nil {
+			vx.Fatal2("Vp8lGen CASE: %v", err)
+		}
+		b := make([]byte, len(c.Bytes))
+		for i, v := range c.Bytes {
+			b[i] = byte(v)
+		}
+		name := fmt.Sprintf("TLA+ writer, transforms (type,colours) %v on %dx%d", c.Ts, c.W, c.H)
+		pix, w, h, err, hang := decodeToARGB(wrapVP8L(b), 20*time.Second)
+		nWr++
+		run.Eval("writer:" + fmt.Sprint(c.Ts))
+		run.AddTraces(1)
+		switch {
+		case hang:
+			run.Violate("hang|tla-writer", name+": webp.Decode did not return", map[string]any{"desc": name, "bytes": b})
+			run.Finish()
+		case err != nil:
+			run.Violate("valid-stream-rejected|tla-writer|"+fmt.Sprint(c.Ts), name+": "+err.Error(), map[string]any{"desc": name, "bytes": b})
+		case w != c.W || h != c.H || !equalInts(pix, c.Pix):
+			run.Violate("pixels|tla-writer|"+fmt.Sprint(c.Ts), name+": decoded pixels differ from the specification's", map[string]any{"desc": name, "bytes": b})
+		}
+	}
+	if nWr == 0 {
+		vx.Fatal2("Vp8lGen produced no case")
+	}
+	run.Cov["streams_from_the_tla_writer"] = nWr
 	// libwebp fixtures: real decoder against the reference PNGs; in the thorough tier the TLA+ reader decodes them too,
 	// which anchors the specification itself to libwebp's output
 	if run.Thorough() {
@@ -232,4 +276,16 @@ func compareLosslessFixture(webpPath, pngPath string) (int, error) {
 		}
 	}
 	return diff, nil
+}
+
+func equalInts(a, b []int) bool {
+	if len(a) != len(b) {
+		return false
+	}
+	for i := range a {
+		if a[i] != b[i] {
+			return false
+		}
+	}
+	return true
 }
